@@ -13,11 +13,14 @@ pub const MAX_NT: usize = 7;
 pub const MAX_T: usize = 6;
 pub const MAX_VARIANTS: usize = 4;
 pub const MAX_FIELDS: usize = 4;
+pub const MAX_WIDE_FIELDS: usize = 14;
 pub const MAX_EDITS: usize = 6;
 
 #[derive(Clone, Debug, PartialEq, Eq)]
 pub struct RawFs {
     pub form: u8,
+    /// < 208: at most MAX_FIELDS fields; < 240: at most 9; otherwise up to MAX_WIDE_FIELDS
+    pub wide: u8,
     pub fields: Vec<(u16, bool)>,
 }
 
@@ -41,7 +44,7 @@ pub struct RawGrammar {
 }
 
 pub fn raw_fs() -> impl Strategy<Value = RawFs> {
-    (0u8..3, vec((any::<u16>(), prop::bool::weighted(0.7)), 0..=MAX_FIELDS)).prop_map(|(form, fields)| RawFs { form, fields })
+    (0u8..3, any::<u8>(), vec((any::<u16>(), prop::bool::weighted(0.7)), 0..=MAX_WIDE_FIELDS)).prop_map(|(form, wide, fields)| RawFs { form, wide, fields })
 }
 
 pub fn raw_nt() -> impl Strategy<Value = RawNt> {
@@ -111,7 +114,14 @@ fn build_random(raw: &RawGrammar) -> Spec {
                         fields: if v.form == 0 {
                             vec![]
                         } else {
-                            v.fields.iter().map(|(s, u)| SField { sym: sym_of(*s, nt, nn), used: *u }).collect()
+                            let cap = if v.wide < 208 {
+                                MAX_FIELDS
+                            } else if v.wide < 240 {
+                                9
+                            } else {
+                                MAX_WIDE_FIELDS
+                            };
+                            v.fields.iter().take(cap).map(|(s, u)| SField { sym: sym_of(*s, nt, nn), used: *u }).collect()
                         },
                     };
                     fs.fix_form();
@@ -466,14 +476,15 @@ impl RawGrammar {
             let mut variants = vec![];
             for _ in 0..nv {
                 let form = b.u8() % 3;
-                let nf = b.len(MAX_FIELDS);
+                let wide = b.u8();
+                let nf = b.len(MAX_WIDE_FIELDS);
                 let mut fields = vec![];
                 for _ in 0..nf {
                     let s = b.u16();
                     let u = b.u8() & 3 != 0;
                     fields.push((s, u));
                 }
-                variants.push(RawFs { form, fields });
+                variants.push(RawFs { form, wide, fields });
             }
             nts.push(RawNt { is_enum, variants });
         }
